@@ -313,6 +313,9 @@ class Inliner:
                         d in ("staticmethod",) for d in hit[1].decorators)
 
                 fold_substituted_tests(node, _is_method)
+                from .normalize import hoist_common_tails
+
+                hoist_common_tails(node)
             if fmt or changed:
                 changed |= desugar_tables(node, f.module.top)  # before scalar replacement: the rows may be private records
                 changed |= scalar_replace(node, f.module)
